@@ -106,6 +106,17 @@ func c10Gen(tier string, seed int64) []fw.Case {
 			}
 		}
 	}
+	// contexts that have ended BEFORE the call: the call fails (whether the connection is then closed depends on
+	// where the library notices), and whatever it did must not leave a later call with a live context hanging
+	for _, role := range bothRoles {
+		for _, p := range []wire.Params{{}, {Deflate: true}} {
+			for _, kind := range []string{"read", "reader", "write", "writer", "ping"} {
+				d := c10Desc{Kind: "cancelled-before", Role: role, Params: p, Blocked: kind, Seed: rng.U64()}
+				dd := d
+				cases = append(cases, fw.Case{Name: fmt.Sprintf("cancelled-before/%s/%s/%s", role, paramsKey(p), kind), Desc: dd, Run: func(r *fw.R) { c10CancelledBefore(r, dd) }})
+			}
+		}
+	}
 	// the first Write of a streamed message fills the 4096 byte write buffer to within a few bytes (every
 	// size around it): with its header the frame may or may not fit, and when it does not the flush blocks
 	for _, role := range bothRoles {
@@ -664,6 +675,12 @@ func c10Blocked(r *fw.R, d c10Desc) {
 	if dl, ok := ctx.Deadline(); !seenBlocked || ok && time.Until(dl) < 10*time.Millisecond || ctx.Err() != nil {
 		select {
 		case err := <-res:
+			if err == nil && d.Blocked == "writer-first-write-fills-buffer" {
+				// (it fitted the write buffer after all; the goroutine was just slow to say so)
+				r.Count("first_writes_that_fitted_the_buffer", 1)
+				r.Key("blocked/%s/first-write/fitted", d.Role)
+				return
+			}
 			if err == nil {
 				r.Violate("C10/blocked-call-returned-nil/"+d.Blocked, what+": the call returned nil although the peer never supplied what it waited for", "")
 				return
@@ -703,6 +720,10 @@ func c10Blocked(r *fw.R, d c10Desc) {
 	}
 	lag := time.Since(tc)
 	r.Max("cancel_to_return_ms", lag.Milliseconds())
+	if callErr == nil && d.Blocked == "writer-first-write-fills-buffer" && !seenBlocked {
+		r.Count("first_writes_that_fitted_the_buffer", 1)
+		return
+	}
 	if callErr == nil {
 		r.Violate("C10/blocked-call-returned-nil/"+d.Blocked, what+": the call returned nil although the peer never supplied what it waited for", "")
 		return
@@ -746,4 +767,95 @@ func libClosed(peerEnd *xport.End) bool {
 		}
 		return err == io.EOF
 	}
+}
+
+// c10CancelledBefore: 24 fresh connections per case; on each, one call is made with a context that has already
+// ended, then calls with live contexts (3 s) follow. Those either work or fail at once because the connection was
+// closed - they never wait for their own deadline.
+func c10CancelledBefore(r *fw.R, d c10Desc) {
+	r.SetSample(d)
+	for it := 0; it < 24; it++ {
+		c, _, peerEnd, err := libConn(d.Role, d.Params, 64, xport.Plan{}, xport.Plan{})
+		if err != nil {
+			r.Violate("C10/attach-failed", err.Error(), "")
+			return
+		}
+		peer := newRawPeer(peerEnd, d.Role, d.Params, d.Seed+uint64(it))
+		peer.AutoPong = true
+		peer.Start()
+		dead, dc := context.WithCancel(context.Background())
+		dc()
+		if it%2 == 1 {
+			var dc2 context.CancelFunc
+			dead, dc2 = context.WithDeadline(context.Background(), time.Now().Add(-time.Second))
+			defer dc2()
+		}
+		peer.Send(wire.Data(wire.OpText, true, []byte("for the pre-cancelled read")))
+		var cerr error
+		switch d.Blocked {
+		case "read":
+			_, _, cerr = c.Read(dead)
+		case "reader":
+			_, _, cerr = c.Reader(dead)
+		case "write":
+			cerr = c.Write(dead, websocket.MessageText, []byte("with a dead context"))
+		case "writer":
+			var w io.WriteCloser
+			w, cerr = c.Writer(dead, websocket.MessageText)
+			if cerr == nil {
+				_, cerr = w.Write([]byte("with a dead context"))
+				if cerr == nil {
+					cerr = w.Close()
+				}
+			}
+		case "ping":
+			cerr = c.Ping(dead)
+		}
+		r.Count("calls_with_a_context_that_had_already_ended", 1)
+		_ = cerr // (a call that happened to complete is not judged)
+		// later calls, live contexts
+		nexts := []string{"write", "read", "ping"}
+		if d.Blocked == "write" || d.Blocked == "writer" {
+			// (a message writer whose context has ended can no longer be finished or released: the library keeps the
+			// message lock with it while the connection stays open, so later WRITES wait - noted in DESIGN.md section
+			// 11, outside the given properties; reads and pings must still go through)
+			nexts = []string{"read", "ping"}
+		}
+		for _, next := range nexts {
+			live, lc := context.WithTimeout(context.Background(), 3*time.Second)
+			t0 := time.Now()
+			var nerr error
+			switch next {
+			case "write":
+				nerr = c.Write(live, websocket.MessageText, []byte("later"))
+			case "read":
+				peer.Send(wire.Data(wire.OpText, true, []byte("later")))
+				_, _, nerr = c.Read(live)
+			case "ping":
+				go func() {
+					for {
+						if _, _, err := c.Read(live); err != nil {
+							return
+						}
+					}
+				}()
+				nerr = c.Ping(live)
+			}
+			el := time.Since(t0)
+			expired := live.Err() != nil
+			lc()
+			if nerr != nil && expired && el >= 2900*time.Millisecond {
+				r.Violate("C10/later-call-hangs-after-a-pre-cancelled-call/"+d.Blocked, fmt.Sprintf("%s %s: after a %s call made with a context that had already ended (%v), a %s with a fresh 3 s context neither worked nor failed: it waited for its own deadline (%v)", d.Role, paramsKey(d.Params), d.Blocked, cerr, next, nerr), "")
+				c.CloseNow()
+				peerEnd.Close()
+				return
+			}
+			if nerr != nil {
+				break // the connection was closed by the first call: fine
+			}
+		}
+		c.CloseNow()
+		peerEnd.Close()
+	}
+	r.Key("cancelled-before/%s/%s/%s", d.Role, paramsKey(d.Params), d.Blocked)
 }
